@@ -115,10 +115,10 @@ def run(ctx):
     if gomp is not None:
         gomp.omp_set_num_threads(os.cpu_count() or 4)
     # ---- Python API
-    api_runs = 40 if ctx.thorough else 10
+    api_runs = 40 if ctx.thorough else 12
     for k in range(api_runs):
         n = rng.randint(2, 6)
-        ndim = rng.choice([1, 1, 2])
+        ndim = 2 if k % 6 == 3 else rng.choice([1, 1, 2])      # multivariate multiprocessing routes in every run
         equal = rng.random() < 0.5
         series = c06.make_series(rng, n, ndim, equal, tagged=False)
         data = c06.container(series, ndim, "matrix" if (equal and k % 2) else "list")
